@@ -113,6 +113,10 @@ def export_solution_to_excel_file(solution, excel_filename, colors: bool):
         # get the related resource object
         current_task = solution.tasks[task_name]
 
+        # an unscheduled optional task takes no time slot
+        if not current_task.scheduled:
+            continue
+
         text_to_display = ",".join(current_task.assigned_resources)
 
         # the color is computed from the resource names
